@@ -16,7 +16,7 @@ WORLD_RULE = ("random histories on a real repository: policy states (root key, r
 PROPS = {
     "C01": {
         "test": "TestC01",
-        "lean_modules": ["Gittuf.Props.C01"],
+        "lean_modules": ["Gittuf.Props.C01", "Gittuf.Props.C02b"],
         "n": {"quick": 24, "thorough": 600},
         "min_per_shard": 6,
         "rule": WORLD_RULE,
